@@ -359,3 +359,8 @@ def _files(ct, tier, seed):
 
 contract('C20.files', [ZH + ':ZemaxFileReader._read_file', ZH + ':ZemaxFileReader._read_glass', ZH + ':load_zemax_file',
                        ZH + ':ZemaxFileReader.generate_lens'], ['C20'], custom=_files)(lambda c: None)
+
+
+# concrete inputs found by the defect-hunting sub-agents (bounded replay, see contracts/hunt.py)
+from . import hunt as _hunt  # noqa: E402
+_hunt.register('C20')
